@@ -102,7 +102,7 @@ def make(**params):
 
 def job(n, k, obj, mandatory=True, **kw):
     tag = ' '.join('%s=%s' % (a, b) for a, b in sorted(kw.items()) if b is not None)
-    j = {'id': 'ilp (%d,%d) obj=%s %s' % (n, k, obj, tag), 'factory': 'harness.c17:make', 'params': dict(n=n, k=k, obj=obj, **kw), 'validate': False}
+    j = {'id': 'ilp (%d,%d) obj=%s %s' % (n, k, obj, tag), 'factory': 'harness.c17:make', 'params': dict(n=n, k=k, obj=obj, **kw), 'loose': True}
     if not mandatory: j['mandatory'] = False
     return j
 
